@@ -34,7 +34,7 @@ type runC19 struct {
 }
 
 var (
-	listRe  = regexp.MustCompile(`^(\d{4}) (?:     \||[ \d:]{6})  (\S+)`)
+	listRe  = regexp.MustCompile(`^(\d{4,}) (?:     \|| *\d+:\d+)  (\S+)`)
 	stackRe = regexp.MustCompile(`^ {13}\d+: `)
 	statRe  = regexp.MustCompile(`^([px]stats)\.(\w+): *(\d+)$`)
 	headRe  = regexp.MustCompile(`^== .* ==$`)
@@ -316,9 +316,9 @@ func TestC19(t *testing.T) {
 		cfg.PShort = 30
 		cfg.BNames = []string{"", `"a"`, `"b c"`, `"é"`}
 		p, _ := gen.GenProg(t, cfg)
-		if gen.Chance(t, 3, "manylocals") {
-			// slot numbers and pop counts with multi-byte operands
-			p = gen.ManyLocalsProg(gen.Int(t, 236, 262, "nlocals"), gen.Bool(t, "inblock"))
+		if gen.Chance(t, 3, "special") {
+			// slot numbers, pop counts and constant indices with multi-byte operands
+			p, _ = gen.SpecialProg(t)
 		}
 		o := ref.Run(p)
 		if o.Unspecified != "" && o.Unspecified != "comparison with NaN" {
